@@ -82,9 +82,17 @@ fn step(t: &mut SliceOutputTarget, model: &mut [u8; BACK], mpos: &mut usize, cap
     } else {
         let (a, b) = (res.0.start, res.0.end);
         let r = t.write_bytes_into_reserved_exact(res, &data[..k]);
-        let valid = a <= b && b <= cap;
-        if valid && b - a >= k {
-            check!(r.is_ok(), "a write that fits a valid reservation succeeds");
+        // A reservation this target can have issued lies inside the bytes already claimed: a <= b <= position.  Writing
+        // into such a reservation must succeed when the bytes fit.  A forged reservation (inverted, past the capacity, or
+        // reaching into the not-yet-claimed space) may be refused or - if it lies inside the buffer - honoured; either way
+        // the effects must be exactly the model's.
+        let issued = a <= b && b <= *mpos;
+        let in_buffer = a <= b && b <= cap;
+        if issued && b - a >= k {
+            check!(r.is_ok(), "a write that fits a reservation issued by this target succeeds");
+        }
+        if r.is_ok() {
+            check!(in_buffer && b - a >= k, "a write outside / beyond the reservation must fail");
             let mut i = 0;
             while i < 3 {
                 if i < k {
@@ -94,7 +102,6 @@ fn step(t: &mut SliceOutputTarget, model: &mut [u8; BACK], mpos: &mut usize, cap
             }
             check!(res.0.start == a + k && res.0.end == b, "the reservation shrinks from the front by k");
         } else {
-            check!(r.is_err(), "a write outside / beyond the reservation must fail");
             check!(res.0.start == a && res.0.end == b, "a failed reserved write leaves the reservation unchanged");
         }
         core::mem::forget(r);
